@@ -2,7 +2,7 @@
 from checklib import spec as S
 
 ID = 'C01'
-LEAN_DEPS = ['RvModel.Spec.C01A']
+LEAN_DEPS = ['RvModel.Spec.C01A', 'RvModel.Hand.Dispatch']
 METHODS = ('ln_f', 'f', 'ln_pdf', 'pdf', 'ln_pmf', 'pmf')
 N_GEN = {'quick': 10, 'thorough': 150}
 
@@ -10,6 +10,9 @@ N_GEN = {'quick': 10, 'thorough': 150}
 SPEC = [
     {'op': 'Gaussian.ln_f_real', 'spec': 'spec.Gaussian.ln_f_real', 'support': 'real'},
 ]
+import glob, json, os
+for _f in sorted(glob.glob(os.path.join(os.path.dirname(__file__), 'spec', 'C01*.json'))):
+    SPEC += json.load(open(_f))
 REQUIRED = [e['op'] for e in SPEC]
 TRUSTED = ['Spec/C01*.lean textbook log-densities; Mathlib densities where a bridge theorem exists']
 ASSUMPTIONS = ['exact real arithmetic in theorems; binary64 rounding only sampled',
